@@ -431,6 +431,16 @@ pub fn run(tier: &str, seed: u64) -> Report {
               }
             }
           }
+          // configured imports request their targets without an attribute
+          for gi in g.imports.values() {
+            for d in gi.dependencies.values() {
+              for r in [&d.maybe_code, &d.maybe_type] {
+                if let Some(t) = ok_spec(r) {
+                  importer_attrs.entry(follow(t)).or_default().push(None);
+                }
+              }
+            }
+          }
           for e in g.module_errors() {
             if err_kind(e).0 != "unsupportedMedia" {
               continue;
